@@ -189,7 +189,7 @@ pub fn subs() -> Vec<Box<dyn Sub>> {
         rule: "header Builder: enumerated completely in every tier: all 2^10 subsets of the builder slots x both architectures (one call per chosen slot); generated: 0..=16 calls in random order with repeats, information-request lists of 0..=32 entries, marker field values. Oracle: 8-aligned, loads, magic, chosen architecture, length word == byte length, checksum congruence (reference model), walk == supplied tags (last call per slot wins) byte-identical up to their sizes, and the final 8 bytes are an end tag (type 0, flags 0, size 8). Non-trivial = at least one call; distinct by (arch, call list)",
         profiles: Profiles::Both,
         quick: 30000,
-        thorough: 500000,
+        thorough: 2000000,
         strategy,
         enumerate: Some(enumerate),
         enum_exhaustive: false,
